@@ -21,6 +21,8 @@ fn keys12() -> Vec<MK> {
         MK::Str("a".into()),
         MK::Str("b".into()),
         MK::Str("k1".into()),
+        // a key spelled like a registered function: a present entry wins over the method
+        MK::Str("size".into()),
     ]
 }
 
